@@ -176,6 +176,9 @@ pub struct RunOut {
 	pub read: ReadOut,
 	pub leftover: Vec<u8>,
 	pub io_error: Option<String>,
+	/// longest unplanned pause between two writes (scheduling stalls void a run: the property
+	/// only speaks about fragment gaps inside the I/O timeouts)
+	pub max_gap_ms: u64,
 }
 
 /// One socket run: the writer sends `bytes` cut as planned, the real codec reads on the other end.
@@ -200,24 +203,33 @@ pub fn run_once(listener: &TcpListener, bytes: &[u8], plan: &Plan, version: u32)
 				},
 				leftover: vec![],
 				io_error: Some(e),
+				max_gap_ms: 0,
 			}
 		}
 	};
 	let done = Arc::new(AtomicBool::new(false));
 	let mut io_error = None;
 	let mut leftover = vec![];
+	let mut max_gap_ms = 0u64;
 	let read = thread::scope(|s| {
 		let d2 = done.clone();
 		let reader = s.spawn(move || read_all(r, version, &d2, Duration::from_secs(40)));
 		let d3 = done.clone();
 		let probe_w = probe.try_clone();
-		let writer = s.spawn(move || -> Result<(), String> {
+		let writer = s.spawn(move || -> Result<u64, String> {
 			let probe_w = probe_w.map_err(|e| format!("{}", e))?;
 			let mut start = 0usize;
-			let mut ends: Vec<usize> = plan.cuts.clone();
+			let mut max_gap = 0u64;
+			let mut last_write = Instant::now();
+			let mut ends: Vec<usize> = plan.cuts.iter().map(|c| (*c).min(bytes.len())).collect();
 			ends.push(bytes.len());
 			for (i, &end) in ends.iter().enumerate() {
 				if end > start {
+					let planned = if i > 0 { plan.gaps_us.get(i - 1).cloned().unwrap_or(0) / 1000 } else { 0 };
+					let waited = last_write.elapsed().as_millis() as u64;
+					if !d3.load(Ordering::SeqCst) {
+						max_gap = max_gap.max(waited.saturating_sub(planned));
+					}
 					if let Err(e) = w.write_all(&bytes[start..end]) {
 						// the reader may have gone away after a refusal
 						if d3.load(Ordering::SeqCst) {
@@ -225,6 +237,7 @@ pub fn run_once(listener: &TcpListener, bytes: &[u8], plan: &Plan, version: u32)
 						}
 						return Err(format!("write: {}", e));
 					}
+					last_write = Instant::now();
 					start = end;
 				}
 				if i + 1 < ends.len() {
@@ -244,7 +257,7 @@ pub fn run_once(listener: &TcpListener, bytes: &[u8], plan: &Plan, version: u32)
 				}
 			}
 			let _ = w.shutdown(Shutdown::Write);
-			Ok(())
+			Ok(max_gap)
 		});
 		let read = reader.join().unwrap_or_else(|_| ReadOut {
 			obs: vec![Obs::Panic("reader thread".into())],
@@ -270,7 +283,7 @@ pub fn run_once(listener: &TcpListener, bytes: &[u8], plan: &Plan, version: u32)
 			}
 		}
 		match writer.join() {
-			Ok(Ok(())) => {}
+			Ok(Ok(g)) => max_gap_ms = g,
 			Ok(Err(e)) => io_error = Some(e),
 			Err(_) => io_error = Some("writer panicked".into()),
 		}
@@ -280,6 +293,7 @@ pub fn run_once(listener: &TcpListener, bytes: &[u8], plan: &Plan, version: u32)
 		read,
 		leftover,
 		io_error,
+		max_gap_ms,
 	}
 }
 
@@ -290,7 +304,6 @@ pub struct Case {
 	pub classes: Vec<String>,
 	pub total: usize,
 	pub starts: Vec<usize>,
-	pub raw: Value,
 }
 
 impl Case {
@@ -312,7 +325,6 @@ impl Case {
 				.iter()
 				.map(|x| x.as_u64().unwrap() as usize)
 				.collect(),
-			raw: v.clone(),
 		}
 	}
 }
@@ -676,12 +688,30 @@ pub fn replay(args: &Args) -> i32 {
 	let counters: Vec<Arc<AtomicUsize>> = (0..8).map(|_| Arc::new(AtomicUsize::new(0))).collect();
 	// 0 runs, 1 single, 2 multi, 3 idle, 4 timeouts seen, 5 writer-checked frames, 6 max alloc, 7 bytes
 	// how many streams get the idle (2.3 s silent) plan
-	let idle_budget = Arc::new(AtomicUsize::new(if thorough { 24 } else { 8 }));
+	// the streams that additionally get the silent-peer plan: spread evenly over the eligible ones
+	let eligible: Vec<usize> = cases
+		.iter()
+		.filter(|c| c.frames.len() >= 2 && c.total <= 4000 && c.expect.len() >= 2)
+		.map(|c| c.id)
+		.collect();
+	let want_idle = if thorough { 32 } else { 12 };
+	let step = (eligible.len() / want_idle).max(1);
+	let idle_set: Arc<std::collections::HashSet<usize>> = Arc::new(
+		eligible
+			.iter()
+			.enumerate()
+			.filter(|(j, _)| (j + seed as usize) % step == 0)
+			.map(|(_, c)| *c)
+			.take(want_idle + 2)
+			.collect(),
+	);
+	let voids = Arc::new(AtomicUsize::new(0));
 	let mut hs = vec![];
 	for w in 0..threads {
 		let (cases, next, results, pool, tmp) = (cases.clone(), next.clone(), results.clone(), pool.clone(), tmp.clone());
 		let counters = counters.clone();
-		let idle_budget = idle_budget.clone();
+		let idle_set = idle_set.clone();
+		let voids = voids.clone();
 		let only_plan = only_plan.clone();
 		hs.push(thread::spawn(move || {
 			let listener = TcpListener::bind("127.0.0.1:0").expect("bind loopback");
@@ -733,11 +763,7 @@ pub fn replay(args: &Args) -> i32 {
 						"k": case.frames[0].k, "t": case.frames[0].t, "label": case.frames[0].label(), "plan": {}}));
 					continue;
 				}
-				let small_multi = case.frames.len() >= 2 && case.total <= 4000 && case.expect.len() >= 2;
-				let idle = small_multi
-					&& idle_budget
-						.fetch_update(Ordering::SeqCst, Ordering::SeqCst, |x| if x > 0 { Some(x - 1) } else { None })
-						.is_ok();
+				let idle = idle_set.contains(&ci);
 				let mut ps = plans(case, &mut rng, thorough, idle);
 				if let Some(p) = &only_plan {
 					ps = vec![Plan {
@@ -753,7 +779,22 @@ pub fn replay(args: &Args) -> i32 {
 						Some(p) => p["version"].as_u64().unwrap_or(1000) as u32,
 						None => VERSIONS[(ci + pi) % 4],
 					};
+					// A run in which the machine stalled (an unplanned pause of a second, or a read
+					// timeout although the peer was never silent) is outside the property's
+					// quantifier ("within the I/O timeouts"): it is void and repeated.
+					let silent = plan.gaps_us.iter().any(|g| *g >= 1_500_000);
 					let mut out = run_once(&listener, &stream, plan, version);
+					let mut attempts = 1;
+					while (out.max_gap_ms > 1000 || (!silent && out.read.timeouts > 0) || out.io_error.is_some())
+						&& attempts < 4
+					{
+						voids.fetch_add(1, Ordering::Relaxed);
+						out = run_once(&listener, &stream, plan, version);
+						attempts += 1;
+					}
+					if out.io_error.is_none() && (out.max_gap_ms > 1000 || (!silent && out.read.timeouts > 0)) {
+						out.io_error = Some(format!("stalled run (gap {} ms, {} timeouts) 4 times", out.max_gap_ms, out.read.timeouts));
+					}
 					counters[0].fetch_add(1, Ordering::Relaxed);
 					counters[7].fetch_add(stream.len(), Ordering::Relaxed);
 					match plan.kind {
@@ -810,6 +851,7 @@ pub fn replay(args: &Args) -> i32 {
 		"max_single_alloc": counters[6].load(Ordering::Relaxed),
 		"bytes_sent": counters[7].load(Ordering::Relaxed),
 		"mismatches": res.len(),
+		"void_runs_repeated": voids.load(Ordering::Relaxed),
 	});
 	println!("{}", stats.lock().unwrap());
 	0
